@@ -97,6 +97,8 @@ class Verifier:
         res.sha = src.sha(fn)
         res.span = (fn.lineno, fn.end_lineno)
         self.register_loops(fn)
+        self._vacuity_pending = True
+        self._vacuity = None
         worklist = [[]]
         seen_prefix = set()
         while worklist:
@@ -129,6 +131,10 @@ class Verifier:
             if res.errors:
                 break
         res.time_gen = time.time() - t0
+        res.vacuity = self._vacuity
+        if self._vacuity == "unsat":
+            res.errors.append("vacuous contract: the preconditions are "
+                              "contradictory")
         self.stats.paths = res.paths
         return res
 
@@ -190,6 +196,9 @@ class Verifier:
         for e in con.requires:
             I.assume(bz(I.eval_spec(e, env)))
         I.pre_pc_len = len(I.pc)
+        if self._vacuity_pending:
+            self._vacuity_pending = False
+            self._vacuity = check_vacuity(list(I.pc))
         old = I.snapshot(env)
         I.old_env = old
         I.entry_old = old
@@ -207,6 +216,7 @@ class Verifier:
             raise Unsupported("break/continue outside loop")
         # normal return: postconditions
         I.result = ret
+        I.final_env = env
         I.cur_line = fn.end_lineno
         post_env = dict(entry_env)
         post_env["__module__"] = con.file
@@ -270,6 +280,22 @@ def discharge(obls, timeout_ms=10000, use_cvc5=False):
                 o.model = s.model()
             except z3.Z3Exception:
                 o.model = None
+            # prefer a small counterexample (replayable): bound the lengths
+            try:
+                lens = _len_consts(list(o.hyps) + [g])
+                if lens:
+                    for bound in (4, 12):
+                        s.push()
+                        s.set("timeout", 3000)
+                        for ln in lens:
+                            s.add(ln <= bound)
+                        if s.check() == z3.sat:
+                            o.model = s.model()
+                            s.pop()
+                            break
+                        s.pop()
+            except z3.Z3Exception:
+                pass
         else:
             o.status = "unknown"
             o.note = s.reason_unknown()
@@ -292,6 +318,29 @@ def discharge(obls, timeout_ms=10000, use_cvc5=False):
                         break
         o.time = time.time() - t0
     return obls
+
+
+def check_vacuity(pc):
+    """requires (+ type assumptions) must be satisfiable."""
+    s = z3.Solver()
+    s.set("timeout", 4000)
+    for f in pc:
+        s.add(f)
+    r = s.check()
+    if r == z3.sat:
+        return "sat"
+    if r == z3.unsat:
+        return "unsat"
+    s = z3.Solver()
+    s.set("timeout", 8000)
+    for ln in _len_consts(pc):
+        s.add(ln <= 2)
+    for f in pc:
+        s.add(_expand(f, 1, 2, {}))
+    r = s.check()
+    return "sat(bounded-instantiation)" if r == z3.sat else \
+        ("unsat(bounded-instantiation: no witness with lengths<=2)"
+         if r == z3.unsat else "unknown")
 
 
 def cvc5_check(smt2, timeout_ms):
